@@ -49,3 +49,11 @@ Theorem C11_queues_belong_to_sessions : forall cap d ls, Forall wf_slab ls ->
   (running s = false -> forall c, qof s c = None) /\ (forall c, qof s c <> None -> mem c (conns s) = true).
 Proof. exact s_queues_belong_to_sessions_S1. Qed.
 Print Assumptions C11_queues_belong_to_sessions.
+
+(** the schedule of finding F13 in the model (the session-ended mark of the repair is part of it): a client whose session
+    ended with a request outstanding reconnects BEFORE the pump has seen the disconnection; the request sent to the new
+    session is written (before the repair the old session's timeout context held it back for good) *)
+Example C11_reconnect_before_pump_notices :
+  let ls := [SStart; Connect 1; SSend 1 11 true; SPumpReq; Disconnect 1; Connect 1; SSend 1 12 true; SPumpReq; SPumpReq] in
+  map (fun e => match e with SWr c r => r | _ => 0 end) (filter (fun e => match e with SWr _ _ => true | _ => false end) (rev (str (srun ls (sinit 0 true))))) = [11; 12].
+Proof. vm_compute. reflexivity. Qed.
